@@ -283,6 +283,15 @@ func (c *DnsController) CloneCacheForReload() map[string]*DnsCache {
 	return result
 }
 
+// dnsCacheEntryLive returns the liveness test of a published entry: is it still
+// the value stored under its key.
+func (c *DnsController) dnsCacheEntryLive(cacheKey string, entry *DnsCache) func() bool {
+	return func() bool {
+		cur, ok := c.dnsCache.Load(cacheKey)
+		return ok && cur == any(entry)
+	}
+}
+
 func (c *DnsController) RestoreReloadCache(entries map[string]*DnsCache, matchDomainBitmap func(string) []uint32, now time.Time) int {
 	if c == nil || len(entries) == 0 {
 		return 0
@@ -296,6 +305,7 @@ func (c *DnsController) RestoreReloadCache(entries map[string]*DnsCache, matchDo
 		if matchDomainBitmap != nil {
 			v.DomainBitmap = matchDomainBitmap(v.GetFqdn())
 		}
+		v.routeLive = c.dnsCacheEntryLive(k, v)
 		c.dnsCache.Store(k, v)
 		c.rememberDnsKnowledge(dnsCacheBaseKey(k), v.OriginalDeadline)
 		c.triggerBpfUpdateIfNeeded(v, now)
@@ -1686,6 +1696,7 @@ func (c *DnsController) __updateDnsCacheDeadline(cacheKey string, host string, d
 
 	// Store atomically - concurrent writes don't block each other
 	newCache.RouteOwnerKey = cacheKey
+	newCache.routeLive = c.dnsCacheEntryLive(cacheKey, newCache)
 	c.dnsCache.Store(cacheKey, newCache)
 	c.rememberDnsKnowledge(baseKey, originalDeadline)
 
